@@ -19,6 +19,9 @@ if ROOT not in sys.path:
 
 # property id -> spec modules contributing units
 SPEC_MODULES = {
+    "C01": ["specs.c01_taskgroup"],
+    "C02": ["specs.c01_taskgroup"],
+    "C07": ["specs.c01_taskgroup"],
     "C04": ["specs.c04_scope"],
     "C06": ["specs.c04_scope"],
     "C08": ["specs.c08_checkpoints"],
